@@ -72,6 +72,16 @@ CHECKS = {
              "one. Tie: exact correspondence + an independent delay-schedule reference on the implementation.",
         design="5/C09", tech="Coq proof (induction over close-outs and request lists) over hand-written models + exact-rational correspondence",
         note=NOTE + "DecayQueueTank (no release at close-out) and sub-FLOAT_ACCURACY pushes are outside the QueueTank theorems (hypotheses plain / eps <= vol)."),
+    "C18": dict(
+        text="Theorems about the model of Node.push_distributed / pull_distributed / get_connected on a star, for any "
+             "fan-out, capacities, preferences >= 0, type filter and iteration limit, against any far ends meeting the "
+             "reply contract: 0 <= not pushed <= offer, pulled <= asked, the pieces recorded on the arcs add up to the "
+             "reported total, filtered-out arcs are untouched, every arc stays within capacity, and when the loop stops "
+             "before the iteration limit the request is met or nothing more is feasible (both within FLOAT_ACCURACY); "
+             "per-round shares are proportional to allocation and bounded. Tie: exact correspondence incl. the "
+             "iteration-limit message and ZeroDivisionError; implementation monitor incl. the proportional-share clause.",
+        design="5/C18", tech="Coq proof (induction over arcs and over the bounded redistribution loop, contract-parametric) over a hand-written model + exact-rational correspondence",
+        note=NOTE + "The model visits arcs in creation order (see trusted base in the evidence); of_type given as a bare string (substring test in the single-arc path) is not modelled."),
 }
 
 ALL = [f"C{n:02d}" for n in range(1, 21)]
